@@ -364,14 +364,15 @@ Qed.
 Lemma liveness_example_explicit :
   closed_trace (hs_trace ++ write_trace ex_writes) /\
   (forall w, In w ex_writes -> 0 < zlen (snd w) <= mtu_of ex_cfg (fst w) - 50) /\
-  Quiescent ex_cfg (run ex_cfg (init_sys true) hs_trace) (wadd (issA ex_cfg) 1) (wadd (issB ex_cfg) 1) /\
+  Quiescent ex_cfg hs_state (wadd (issA ex_cfg) 1) (wadd (issB ex_cfg) 1) /\
   let s := run ex_cfg (init_sys true) (hs_trace ++ write_trace ex_writes) in
   (exists a b, Quiescent ex_cfg s a b) /\
   delivered s SB = subA s /\ delivered s SA = subB s /\
   length (subA s) = 51%nat /\ length (subB s) = 1487%nat.
 Proof.
   split.
-  { intros l Hl. cbn in Hl. repeat (destruct Hl as [<- | Hl]; [exact I|]). contradiction. }
+  { assert (Hf : forallb no_inject (hs_trace ++ write_trace ex_writes) = true) by (vm_compute; reflexivity).
+    intros l Hl. rewrite forallb_forall in Hf. specialize (Hf l Hl). destruct l; try exact I. discriminate Hf. }
   split.
   { pose proof ex_writes_small as H. rewrite Forall_forall in H. exact H. }
   split; [exact hs_quiescent|exact ex_live].
